@@ -1,54 +1,82 @@
 import NeumannModel.Vault.Inv
 /-
-  C14 — at-rest shape: no record of the model's store ever holds a secret VALUE in a readable
-  (`Field.clear`) field, for every history.  (Names are a different story: see Props.)
+  C14 — at-rest shape, for every history.  One invariant, two instances:
+    * secret VALUES: no record of the model's store holds one in a readable (`Field.clear`) field;
+    * secret NAMES: the same for every record EXCEPT the two persistence records that still carry the
+      name in the clear (`_vault_ttl_grants`, `_vdel:…` — known findings, witnessed in Props).
 -/
 namespace Neumann.Vault
 
-/-- a record exposes no secret value -/
-def RecOk (r : Rec) : Prop := ∀ f ∈ r.fields, ∀ v, f.2.reveals (.value v) = false
+/-- a class of sensitive plaintexts (`bad`) together with the record kinds excluded from the claim (`exempt`) -/
+structure Cls where
+  bad : Plain → Prop
+  exempt : RKey → Prop
 
-/-- no record of the store exposes a secret value -/
-def SV (st : Store) : Prop := ∀ r ∈ st, RecOk r
+/-- the class is never an identity, and it either contains no secret name or exempts the two record kinds
+    whose clear JSON lists secret names -/
+structure Cls.Adm (c : Cls) : Prop where
+  ident : ∀ e, ¬ c.bad (.ident e)
+  names : (∀ n, ¬ c.bad (.name n)) ∨ (c.exempt .ttlGrants ∧ ∀ p ch, c.exempt (.deleg p ch))
 
-theorem SV.put {st : Store} (h : SV st) {r : Rec} (hr : RecOk r) : SV (st.put r) := by
+/-- secret values, no record kind exempt -/
+def valueCls : Cls := { bad := fun p => ∃ v, p = .value v, exempt := fun _ => False }
+
+/-- secret names, the TTL-tracker record and the delegation records exempt -/
+def nameCls : Cls :=
+  { bad := fun p => ∃ n, p = .name n,
+    exempt := fun k => k = .ttlGrants ∨ ∃ p ch, k = .deleg p ch }
+
+theorem valueCls_adm : valueCls.Adm :=
+  ⟨fun _ ⟨_, h⟩ => Plain.noConfusion h, Or.inl fun _ ⟨_, h⟩ => Plain.noConfusion h⟩
+
+theorem nameCls_adm : nameCls.Adm :=
+  ⟨fun _ ⟨_, h⟩ => Plain.noConfusion h, Or.inr ⟨Or.inl rfl, fun p ch => Or.inr ⟨p, ch, rfl⟩⟩⟩
+
+/-- a record exposes no plaintext of the class (or is of an exempt kind) -/
+def RecOk (c : Cls) (r : Rec) : Prop := c.exempt r.key ∨ ∀ f ∈ r.fields, ∀ p, c.bad p → f.2.reveals p = false
+
+/-- no record of the store exposes a plaintext of the class -/
+def SV (c : Cls) (st : Store) : Prop := ∀ r ∈ st, RecOk c r
+
+variable {c : Cls}
+
+theorem SV.put {st : Store} (h : SV c st) {r : Rec} (hr : RecOk c r) : SV c (st.put r) := by
   intro x hx
   unfold Store.put at hx
   rcases List.mem_append.mp hx with h1 | h1
   · exact h x (List.mem_filter.mp h1).1
   · rw [List.mem_singleton] at h1; subst h1; exact hr
 
-theorem SV.filter {st : Store} (h : SV st) (p : Rec → Bool) : SV (st.filter p) :=
+theorem SV.filter {st : Store} (h : SV c st) (p : Rec → Bool) : SV c (st.filter p) :=
   fun x hx => h x (List.mem_filter.mp hx).1
 
-theorem SV.del {st : Store} (h : SV st) (k : RKey) : SV (st.del k) := h.filter _
+theorem SV.del {st : Store} (h : SV c st) (k : RKey) : SV c (st.del k) := h.filter _
 
-theorem SV.foldl_del {st : Store} (h : SV st) (f : Nat → RKey) :
-    ∀ (l : List Nat) (st : Store), SV st → SV (l.foldl (fun st n => st.del (f n)) st)
+theorem SV.foldl_del (f : Nat → RKey) :
+    ∀ (l : List Nat) (st : Store), SV c st → SV c (l.foldl (fun st n => st.del (f n)) st)
   | [], _, hs => hs
-  | n :: l, st', hs => by rw [List.foldl_cons]; exact SV.foldl_del h f l _ (hs.del _)
+  | n :: l, st', hs => by rw [List.foldl_cons]; exact SV.foldl_del f l _ (hs.del _)
 
-theorem clear_ok {ps : List Plain} (h : ∀ p ∈ ps, ∀ v, p ≠ .value v) (v : Nat) :
-    (Field.clear ps).reveals (.value v) = false := by
+theorem clear_ok {ps : List Plain} (h : ∀ p ∈ ps, ¬ c.bad p) (q : Plain) (hq : c.bad q) :
+    (Field.clear ps).reveals q = false := by
   unfold Field.reveals
   simp only [List.contains_eq_mem, decide_eq_false_iff_not]
   intro hm
-  exact h _ hm v rfl
+  exact h _ hm hq
 
-theorem blobRec_ok (name nonce val : Nat) : RecOk (blobRec name nonce val) := by
-  intro f hf v
+theorem blobRec_ok (name nonce val : Nat) : RecOk c (blobRec name nonce val) := by
+  refine Or.inr fun f hf p _ => ?_
   simp only [blobRec, List.mem_cons, List.mem_nil_iff, or_false] at hf
   rcases hf with rfl | rfl | rfl <;> rfl
 
-theorem nodeRec_ok (name : Nat) : RecOk (nodeRec name) := by
-  intro f hf v
+theorem nodeRec_ok (name : Nat) : RecOk c (nodeRec name) := by
+  refine Or.inr fun f hf p _ => ?_
   simp only [nodeRec, List.mem_cons, List.mem_nil_iff, or_false] at hf
-  rcases hf with rfl | rfl
-  · rfl
-  · exact clear_ok (by intro p hp v; simp only [List.mem_singleton] at hp; subst hp; exact Plain.noConfusion) v
+  subst hf
+  rfl
 
-theorem metaRec_ok (name nonce : Nat) (vs : List Nat) (r : Option Nat) : RecOk (metaRec name nonce vs r) := by
-  intro f hf v
+theorem metaRec_ok (name nonce : Nat) (vs : List Nat) (r : Option Nat) : RecOk c (metaRec name nonce vs r) := by
+  refine Or.inr fun f hf p _ => ?_
   unfold metaRec at hf
   simp only [List.mem_append, List.mem_cons, List.mem_nil_iff, or_false] at hf
   rcases hf with (rfl | rfl | rfl | rfl | rfl | rfl | rfl) | hf
@@ -60,83 +88,97 @@ theorem metaRec_ok (name nonce : Nat) (vs : List Nat) (r : Option Nat) : RecOk (
          simp only [List.mem_cons, List.mem_nil_iff, or_false] at hf
          rcases hf with rfl | rfl <;> rfl)
 
-theorem ttlRec_ok (l : List TtlEntry) : RecOk (ttlRec l) := by
-  intro f hf v
-  simp only [ttlRec, List.mem_singleton] at hf
-  subst hf
-  apply clear_ok
-  intro p hp v
-  simp only [List.mem_flatMap, List.mem_cons, List.mem_nil_iff, or_false] at hp
-  obtain ⟨t, _, rfl | rfl⟩ := hp <;> exact Plain.noConfusion
+theorem ttlRec_ok (hc : c.Adm) (l : List TtlEntry) : RecOk c (ttlRec l) := by
+  rcases hc.names with hn | ⟨hex, _⟩
+  · refine Or.inr fun f hf q hq => ?_
+    simp only [ttlRec, List.mem_singleton] at hf
+    subst hf
+    apply clear_ok _ q hq
+    intro p hp
+    simp only [List.mem_flatMap, List.mem_cons, List.mem_nil_iff, or_false] at hp
+    obtain ⟨t, _, rfl | rfl⟩ := hp
+    · exact hc.ident _
+    · exact hn _
+  · exact Or.inl hex
 
-theorem delegRec_ok (d : DelegRec) : RecOk (delegRec d) := by
-  intro f hf v
-  simp only [delegRec, List.mem_singleton] at hf
-  subst hf
-  apply clear_ok
-  intro p hp v
-  simp only [List.mem_append, List.mem_cons, List.mem_nil_iff, or_false, List.mem_map] at hp
-  rcases hp with (rfl | rfl) | ⟨n, _, rfl⟩ <;> exact Plain.noConfusion
+theorem delegRec_ok (hc : c.Adm) (d : DelegRec) : RecOk c (delegRec d) := by
+  rcases hc.names with hn | ⟨_, hex⟩
+  · refine Or.inr fun f hf q hq => ?_
+    simp only [delegRec, List.mem_singleton] at hf
+    subst hf
+    apply clear_ok _ q hq
+    intro p hp
+    simp only [List.mem_append, List.mem_cons, List.mem_nil_iff, or_false, List.mem_map] at hp
+    rcases hp with (rfl | rfl) | ⟨n, _, rfl⟩
+    · exact hc.ident _
+    · exact hc.ident _
+    · exact hn _
+  · exact Or.inl (hex _ _)
 
-theorem auditRec_ok (n req sec : Nat) (op : String) (extra : List Plain) (h : ∀ p ∈ extra, ∀ v, p ≠ .value v) :
-    RecOk (auditRec n req sec op extra) := by
-  intro f hf v
+theorem auditRec_ok (n req sec : Nat) (op : String) (extra : List Plain) (h : ∀ p ∈ extra, ¬ c.bad p) :
+    RecOk c (auditRec n req sec op extra) := by
+  refine Or.inr fun f hf q hq => ?_
   simp only [auditRec, List.mem_cons, List.mem_nil_iff, or_false] at hf
   rcases hf with rfl | rfl | rfl | rfl
   · rfl
   · rfl
   · rfl
-  · exact clear_ok h v
+  · exact clear_ok h q hq
 
-theorem ident_ok (e : Nat) : ∀ p ∈ [Plain.ident e], ∀ v, p ≠ .value v := by
-  intro p hp v; simp only [List.mem_singleton] at hp; subst hp; exact Plain.noConfusion
+theorem ident_ok (hc : c.Adm) (e : Nat) : ∀ p ∈ [Plain.ident e], ¬ c.bad p := by
+  intro p hp; simp only [List.mem_singleton] at hp; subst hp; exact hc.ident e
 
-theorem nil_ok : ∀ p ∈ ([] : List Plain), ∀ v, p ≠ .value v := fun _ hp => nomatch hp
+theorem nil_ok : ∀ p ∈ ([] : List Plain), ¬ c.bad p := fun _ hp => nomatch hp
 
-theorem audit_sv {s : State} (h : SV s.store) (req sec : Nat) (op : String) (extra : List Plain)
-    (he : ∀ p ∈ extra, ∀ v, p ≠ .value v) : SV (s.audit req sec op extra).store :=
+theorem audit_sv {s : State} (h : SV c s.store) (req sec : Nat) (op : String) (extra : List Plain)
+    (he : ∀ p ∈ extra, ¬ c.bad p) : SV c (s.audit req sec op extra).store :=
   h.put (auditRec_ok _ _ _ _ _ he)
 
-theorem persistTtl_sv {s : State} (h : SV s.store) : SV s.persistTtl.store := by
+theorem persistTtl_sv (hc : c.Adm) {s : State} (h : SV c s.store) : SV c s.persistTtl.store := by
   unfold State.persistTtl
   split
   · exact h.del _
-  · exact h.put (ttlRec_ok _)
+  · exact h.put (ttlRec_ok hc _)
 
-theorem persistDelegs_sv {s : State} (h : SV s.store) : SV s.persistDelegs.store := by
+theorem persistDelegs_sv (hc : c.Adm) {s : State} (h : SV c s.store) : SV c s.persistDelegs.store := by
   unfold State.persistDelegs
   simp only
-  exact foldl_inv (fun (st : Store) d => st.put (delegRec d)) SV s.delegs
-    (fun st d _ hst => hst.put (delegRec_ok d)) _ (h.filter _)
+  exact foldl_inv (fun (st : Store) d => st.put (delegRec d)) (SV c) s.delegs
+    (fun st d _ hst => hst.put (delegRec_ok hc d)) _ (h.filter _)
 
-theorem cleanup_sv {s : State} (h : SV s.store) (now : Nat) : SV (s.cleanup now).store := by
+theorem cleanup_sv (hc : c.Adm) {s : State} (h : SV c s.store) (now : Nat) : SV c (s.cleanup now).store := by
   unfold State.cleanup
   simp only
   split
-  · exact persistTtl_sv h
+  · exact persistTtl_sv hc h
   · exact h
+
+theorem guarded_sv (hc : c.Adm) {s : State} (h : SV c s.store) {now req sec : Nat} {need : Level}
+    {k : State → State × Resp} (hk : ∀ s' : State, SV c s'.store → SV c (k s').1.store) :
+    SV c (s.guarded now req sec need k).1.store :=
+  guarded_inv (fun s => SV c s.store) h (cleanup_sv hc h now) hk
 
 @[simp] theorem putSecret_store (s : State) (m : SecretMeta) : (s.putSecret m).store = s.store := rfl
 @[simp] theorem addAccess_store (s : State) (ent sec : Nat) (l : Level) (x : Option Nat) :
     (s.addAccess ent sec l x).store = s.store := rfl
 
-theorem pruneVersions_sv (maxV name : Nat) (vs : List Nat) {st : Store} (h : SV st) :
-    SV (pruneVersions maxV name vs st).2 := by
+theorem pruneVersions_sv (maxV name : Nat) (vs : List Nat) {st : Store} (h : SV c st) :
+    SV c (pruneVersions maxV name vs st).2 := by
   unfold pruneVersions
   simp only
-  exact SV.foldl_del h (fun n => RKey.blob name n) _ _ h
+  exact SV.foldl_del (fun n => RKey.blob name n) _ _ h
 
-theorem set_sv {s : State} (h : SV s.store) (req sec val size : Nat) : SV (s.set req sec val size).1.store := by
+theorem set_sv (hc : c.Adm) {s : State} (h : SV c s.store) (now req sec val size : Nat) :
+    SV c (s.set now req sec val size).1.store := by
   unfold State.set
   split
   · exact h
   · split
-    · split
-      · exact h
-      · simp only
-        apply audit_sv _ _ _ _ _ nil_ok
-        simp only [putSecret_store]
-        exact (pruneVersions_sv _ _ _ (h.put (blobRec_ok _ _ _))).put (metaRec_ok _ _ _ _)
+    · refine guarded_sv hc h (fun s' hs' => ?_)
+      simp only
+      apply audit_sv _ _ _ _ _ nil_ok
+      simp only [putSecret_store]
+      exact (pruneVersions_sv _ _ _ (hs'.put (blobRec_ok _ _ _))).put (metaRec_ok _ _ _ _)
     · split
       · exact h
       · simp only
@@ -144,130 +186,133 @@ theorem set_sv {s : State} (h : SV s.store) (req sec val size : Nat) : SV (s.set
         simp only [addAccess_store, putSecret_store]
         exact ((h.put (blobRec_ok _ _ _)).put (metaRec_ok _ _ _ _)).put (nodeRec_ok _)
 
-theorem get_sv {s : State} (h : SV s.store) (now req sec : Nat) : SV (s.get now req sec).1.store := by
+theorem get_sv (hc : c.Adm) {s : State} (h : SV c s.store) (now req sec : Nat) : SV c (s.get now req sec).1.store := by
   unfold State.get
-  simp only
+  refine guarded_sv hc (cleanup_sv hc h now) (fun s' hs' => ?_)
   split
-  · exact cleanup_sv h now
-  · split
-    · exact cleanup_sv h now
-    · exact audit_sv (cleanup_sv h now) _ _ _ _ nil_ok
+  · exact hs'
+  · exact audit_sv hs' _ _ _ _ nil_ok
 
-theorem list_sv {s : State} (h : SV s.store) (now req : Nat) (p : Pattern) : SV (s.list now req p).1.store := by
+theorem list_sv (hc : c.Adm) {s : State} (h : SV c s.store) (now req : Nat) (p : Pattern) :
+    SV c (s.list now req p).1.store := by
   unfold State.list
   simp only
-  exact audit_sv (cleanup_sv h now) _ _ _ _ nil_ok
+  exact audit_sv (cleanup_sv hc h now) _ _ _ _ nil_ok
 
-theorem rotate_sv {s : State} (h : SV s.store) (req sec val size : Nat) : SV (s.rotate req sec val size).1.store := by
+theorem rotate_sv (hc : c.Adm) {s : State} (h : SV c s.store) (now req sec val size : Nat) :
+    SV c (s.rotate now req sec val size).1.store := by
   unfold State.rotate
+  refine guarded_sv hc h (fun s' hs' => ?_)
   split
-  · exact h
+  · exact hs'
   · split
-    · exact h
-    · split
-      · exact h
-      · simp only
-        apply audit_sv _ _ _ _ _ nil_ok
-        simp only [putSecret_store]
-        exact (pruneVersions_sv _ _ _ (h.put (blobRec_ok _ _ _))).put (metaRec_ok _ _ _ _)
-
-theorem delete_sv {s : State} (h : SV s.store) (req sec : Nat) : SV (s.delete req sec).1.store := by
-  unfold State.delete
-  split
-  · exact h
-  · split
-    · exact h
-    · rename_i m _
-      simp only
+    · exact hs'
+    · simp only
       apply audit_sv _ _ _ _ _ nil_ok
-      apply persistTtl_sv
-      simp only
-      exact ((SV.foldl_del h (fun n => RKey.blob sec n) m.versions _ h).del _).del _
+      simp only [putSecret_store]
+      exact (pruneVersions_sv _ _ _ (hs'.put (blobRec_ok _ _ _))).put (metaRec_ok _ _ _ _)
 
-theorem grantCore_sv {s s' : State} (h : SV s.store) {req ent sec : Nat} {l : Level} {x : Option Nat}
-    (hg : s.grantCore req ent sec l x = .ok s') : SV s'.store := by
-  unfold State.grantCore at hg
-  split at hg
-  · cases hg
-  · split at hg
-    · cases hg
-    · cases hg
-      exact audit_sv (by simpa using h) _ _ _ _ (ident_ok ent)
-
-theorem grant_sv {s : State} (h : SV s.store) (req ent sec : Nat) (l : Level) : SV (s.grant req ent sec l).1.store := by
-  unfold State.grant
+theorem delete_sv (hc : c.Adm) {s : State} (h : SV c s.store) (now req sec : Nat) :
+    SV c (s.delete now req sec).1.store := by
+  unfold State.delete
+  refine guarded_sv hc h (fun s' hs' => ?_)
   split
-  · exact h
-  · rename_i s' hg; exact grantCore_sv h hg
+  · exact hs'
+  · rename_i m _
+    simp only
+    apply audit_sv _ _ _ _ _ nil_ok
+    apply persistTtl_sv hc
+    simp only
+    exact ((SV.foldl_del (fun n => RKey.blob sec n) m.versions _ hs').del _).del _
 
-theorem grantTtl_sv {s : State} (h : SV s.store) (now req ent sec : Nat) (l : Level) (ttl : Nat) :
-    SV (s.grantTtl now req ent sec l ttl).1.store := by
+theorem grantCore_sv (hc : c.Adm) {s : State} (h : SV c s.store) (now req ent sec : Nat) (l : Level) (x : Option Nat) :
+    SV c (s.grantCore now req ent sec l x).1.store := by
+  unfold State.grantCore
+  refine guarded_sv hc h (fun s' hs' => ?_)
+  split
+  · exact hs'
+  · exact audit_sv (by simpa using hs') _ _ _ _ (ident_ok hc ent)
+
+theorem grant_sv (hc : c.Adm) {s : State} (h : SV c s.store) (now req ent sec : Nat) (l : Level) :
+    SV c (s.grant now req ent sec l).1.store := grantCore_sv hc h now req ent sec l none
+
+theorem grantTtl_sv (hc : c.Adm) {s : State} (h : SV c s.store) (now req ent sec : Nat) (l : Level) (ttl : Nat) :
+    SV c (s.grantTtl now req ent sec l ttl).1.store := by
+  have hg := grantCore_sv hc h now req ent sec l (some (now + ttl))
   unfold State.grantTtl
   split
-  · exact h
-  · rename_i s' hg
-    apply persistTtl_sv
-    show SV s'.store
-    exact grantCore_sv h hg
+  · rename_i s' e heq; rw [heq] at hg; exact hg
+  · rename_i s' r _ heq
+    rw [heq] at hg
+    apply persistTtl_sv hc
+    exact hg
 
-theorem revoke_sv {s : State} (h : SV s.store) (req ent sec : Nat) : SV (s.revoke req ent sec).1.store := by
+theorem revoke_sv (hc : c.Adm) {s : State} (h : SV c s.store) (now req ent sec : Nat) :
+    SV c (s.revoke now req ent sec).1.store := by
   unfold State.revoke
+  refine guarded_sv hc h (fun s' hs' => ?_)
+  simp only
+  apply audit_sv _ _ _ _ _ (ident_ok hc ent)
   split
-  · exact h
-  · simp only
-    apply audit_sv _ _ _ _ _ (ident_ok ent)
-    split
-    · exact persistTtl_sv h
-    · exact h
+  · exact persistTtl_sv hc hs'
+  · exact hs'
 
 theorem foldl_addAccess_store {child : Nat} {eff : Level} {exp : Option Nat} :
     ∀ (secs : List Nat) (s0 : State), (secs.foldl (fun st sec => st.addAccess child sec eff exp) s0).store = s0.store
   | [], _ => rfl
   | sec :: rest, s0 => by rw [List.foldl_cons, foldl_addAccess_store rest]; rfl
 
-theorem foldl_audit_sv (parent child : Nat) (op : String) :
-    ∀ (l : List Nat) (s0 : State), SV s0.store →
-      SV (l.foldl (fun st sec => st.audit parent sec op [.ident child]) s0).store
+theorem foldl_audit_sv (hc : c.Adm) (parent child : Nat) (op : String) :
+    ∀ (l : List Nat) (s0 : State), SV c s0.store →
+      SV c (l.foldl (fun st sec => st.audit parent sec op [.ident child]) s0).store
   | [], _, h => h
   | x :: l, s0, h => by
     rw [List.foldl_cons]
-    exact foldl_audit_sv parent child op l _ (audit_sv h _ _ _ _ (ident_ok child))
+    exact foldl_audit_sv hc parent child op l _ (audit_sv h _ _ _ _ (ident_ok hc child))
 
-theorem delegate_sv {s : State} (h : SV s.store) (now parent child : Nat) (secs : List Nat) (l : Level)
-    (ttl : Option Nat) : SV (s.delegate now parent child secs l ttl).1.store := by
+theorem delegateApply_sv (hc : c.Adm) {s : State} (h : SV c s.store) (now parent child : Nat) (secs : List Nat)
+    (eff : Level) (ttl : Option Nat) : SV c (s.delegateApply now parent child secs eff ttl).1.store := by
   cases ttl with
   | none =>
-    unfold State.delegate
+    unfold State.delegateApply
     split
     · exact h
-    · simp only
-      split
+    · split
       · exact h
-      · split
+      · simp only
+        split
         · exact h
-        · split
-          · exact h
-          · apply foldl_audit_sv
-            apply persistDelegs_sv
-            rw [foldl_addAccess_store]
-            exact h
+        · apply foldl_audit_sv hc
+          apply persistDelegs_sv hc
+          rw [foldl_addAccess_store]
+          exact h
   | some tt =>
-    unfold State.delegate
+    unfold State.delegateApply
     split
     · exact h
-    · simp only
-      split
+    · split
       · exact h
-      · split
+      · simp only
+        split
         · exact h
-        · split
-          · exact h
-          · apply foldl_audit_sv
-            apply persistDelegs_sv
-            apply persistTtl_sv
-            simp only
-            rw [foldl_addAccess_store]
-            exact h
+        · apply foldl_audit_sv hc
+          apply persistDelegs_sv hc
+          apply persistTtl_sv hc
+          simp only
+          rw [foldl_addAccess_store]
+          exact h
+
+theorem delegate_sv (hc : c.Adm) {s : State} (h : SV c s.store) (now parent child : Nat) (secs : List Nat) (l : Level)
+    (ttl : Option Nat) : SV c (s.delegate now parent child secs l ttl).1.store := by
+  have h0 : SV c (if parent = root || secs.isEmpty then s else s.cleanup now).store := by
+    split
+    · exact h
+    · exact cleanup_sv hc h now
+  unfold State.delegate
+  simp only
+  split
+  · exact h0
+  · exact delegateApply_sv hc h0 _ _ _ _ _ _
 
 theorem foldl_drop_store (child : Nat) :
     ∀ (secs : List Nat) (s0 : State),
@@ -276,40 +321,44 @@ theorem foldl_drop_store (child : Nat) :
   | [], _ => rfl
   | sec :: rest, s0 => by rw [List.foldl_cons, foldl_drop_store child rest]
 
-theorem undelegate_sv {s : State} (h : SV s.store) (parent child : Nat) : SV (s.undelegate parent child).1.store := by
+theorem undelegate_sv (hc : c.Adm) {s : State} (h : SV c s.store) (parent child : Nat) :
+    SV c (s.undelegate parent child).1.store := by
   unfold State.undelegate
   split
   · exact h
   · rename_i d _
     simp only
-    apply foldl_audit_sv
-    apply persistTtl_sv
-    apply persistDelegs_sv
+    apply foldl_audit_sv hc
+    apply persistTtl_sv hc
+    apply persistDelegs_sv hc
     rw [foldl_drop_store]
     exact h
 
-theorem step_sv {s : State} (h : SV s.store) (t : Nat) (op : Op) : SV (step s t op).1.store := by
+theorem step_sv (hc : c.Adm) {s : State} (h : SV c s.store) (t : Nat) (op : Op) : SV c (step s t op).1.store := by
   cases op with
-  | set req sec val size => exact set_sv h req sec val size
-  | get req sec => exact get_sv h t req sec
-  | list req p => exact list_sv h t req p
-  | rotate req sec val size => exact rotate_sv h req sec val size
-  | delete req sec => exact delete_sv h req sec
-  | grant req ent sec l => exact grant_sv h req ent sec l
-  | grantTtl req ent sec l ttl => exact grantTtl_sv h t req ent sec l ttl
-  | revoke req ent sec => exact revoke_sv h req ent sec
-  | delegate p c secs l ttl => exact delegate_sv h t p c secs l ttl
-  | undelegate p c => exact undelegate_sv h p c
+  | set req sec val size => exact set_sv hc h t req sec val size
+  | get req sec => exact get_sv hc h t req sec
+  | list req p => exact list_sv hc h t req p
+  | rotate req sec val size => exact rotate_sv hc h t req sec val size
+  | delete req sec => exact delete_sv hc h t req sec
+  | grant req ent sec l => exact grant_sv hc h t req ent sec l
+  | grantTtl req ent sec l ttl => exact grantTtl_sv hc h t req ent sec l ttl
+  | revoke req ent sec => exact revoke_sv hc h t req ent sec
+  | delegate p ch secs l ttl => exact delegate_sv hc h t p ch secs l ttl
+  | undelegate p ch => exact undelegate_sv hc h p ch
   | addMember a b => exact h
   | delMember a b => exact h
 
-theorem run_sv : ∀ (h : List (Nat × Op)) (s : State), SV s.store → SV (run s h).store
+theorem run_sv (hc : c.Adm) : ∀ (h : List (Nat × Op)) (s : State), SV c s.store → SV c (run s h).store
   | [], _, hs => hs
   | (t, op) :: rest, s, hs => by
     rw [run]
-    exact run_sv rest _ (step_sv hs t op)
+    exact run_sv hc rest _ (step_sv hc hs t op)
 
 theorem key_reveals_no_value (k : RKey) (v : Nat) : k.reveals (.value v) = false := by
+  cases k <;> simp [RKey.reveals]
+
+theorem key_reveals_no_name (k : RKey) (n : Nat) : k.reveals (.name n) = false := by
   cases k <;> simp [RKey.reveals]
 
 end Neumann.Vault
